@@ -85,7 +85,8 @@ uint64_t mvsim_step(void);                    /* global step number (event seque
 int      mvsim_cur_worker(void);              /* simulator's idea of the running worker coroutine */
 uint64_t mvsim_now_ns(void);                  /* virtual clock, does not advance it */
 void     mvsim_now_ts(struct timespec *ts);
-uint64_t mvsim_last_clock_ns(void);           /* last value handed to the library by hr_gettime */
+uint64_t mvsim_last_clock_ns(void);
+uint64_t mvsim_clock_reads(void);             /* number of hr_gettime calls so far in this run */           /* last value handed to the library by hr_gettime */
 uint64_t mvsim_probe_count(int site);
 int      mvsim_n_workers_done(void);
 int      mvsim_n_workers_spawned(void);
